@@ -96,6 +96,7 @@ type FuncCtx struct {
 	promote   map[types.Object]bool // local array variables that are sliced: they live in the heap (see promotedVar)
 	bodyPos   token.Pos
 	curContract *FuncContract
+	anchorsHit  map[string]bool
 	loopDepth int
 	permitBareRange bool
 	ceUnroll  int
